@@ -1,6 +1,7 @@
 import ChythonModel.Proofs.C07Complete
 import ChythonModel.Proofs.C07WF
 import ChythonModel.Proofs.C07Product
+import ChythonModel.Proofs.C07Compile
 /-!
 # C07 — substructure search returns exactly the set of valid embeddings
 
@@ -29,18 +30,37 @@ def envOf (t : Graph) (lq : List Step) (cl : Closures) (scope : Nat → Bool) (a
 def BondSymm (bondOk : Nat → Nat → Nat → Nat → Bool) : Prop := ∀ u v x y, bondOk u v x y = bondOk v u y x
 
 theorem setting_of (q t : Graph) (comps : List (List Step)) (cl : Closures) (hq : q.WF = true) (ht : t.WF = true)
-    (hc : checkCompiled q comps cl = true) (lq : List Step) (hlq : lq ∈ comps) (scope : Nat → Bool)
+    (hc : CompiledOK q comps cl) (lq : List Step) (hlq : lq ∈ comps) (scope : Nat → Bool)
     (atomOk : Nat → Nat → Bool) (bondOk : Nat → Nat → Nat → Nat → Bool) (hb : BondSymm bondOk) :
     Setting q (envOf t lq cl scope atomOk bondOk) := by
   have hQ := wf_ok q hq
   have hT := wf_ok t ht
-  have hC := checkCompiled_sound q comps cl hc
+  have hC := hc
   exact ⟨hC.comp lq hlq, hC.comp_nodup hlq, hQ.symm, hQ.loop, hT.symm, hT.loop, hT.closed, rfl, hb⟩
+
+/-- **`compile_covers`**: whatever `_compile_query` returns for a well-formed pattern is a valid DFS linearisation:
+    every atom occurs exactly once as a front; every component starts with a back-less step and every other step hangs on an
+    earlier atom of its own component by a pattern bond; for every step, parent ∪ recorded closures = exactly the
+    earlier-visited neighbours, without repetition (so every pattern bond is a tree edge or a recorded closure, exactly once);
+    no bond leaves a component. -/
+theorem compile_covers (q : Graph) (hq : q.WF = true) (comps : List (List Step)) (cl : Closures)
+    (h : compileQuery q = some (comps, cl)) : CompiledOK q comps cl :=
+  compile_ok q hq comps cl h
+
+/-- **`compile_total`**: on a well-formed pattern the DFS of `_compile_query` terminates within the fuel the model gives
+    it (`fuelFor` = sum of degrees + 1; potential: stack height + degrees of unseen atoms) — the `none` branch is dead. -/
+theorem compile_total (q : Graph) (hq : q.WF = true) : ∃ comps cl, compileQuery q = some (comps, cl) :=
+  ChythonModel.Proofs.C07.compile_total q hq
+
+/-- the executable checker the driver applies to the REAL `_compile_query` output guarantees the same facts -/
+theorem checkCompiled_guarantees (q : Graph) (comps : List (List Step)) (cl : Closures)
+    (h : checkCompiled q comps cl = true) : CompiledOK q comps cl :=
+  checkCompiled_sound q comps cl h
 
 /-- **Soundness** (`rec_sound`): every mapping the enumerator returns for a component is the dict of a valid embedding
     of that component into the target, inside the scope. -/
 theorem rec_sound (q t : Graph) (comps : List (List Step)) (cl : Closures) (hq : q.WF = true) (ht : t.WF = true)
-    (hc : checkCompiled q comps cl = true) (lq : List Step) (hlq : lq ∈ comps) (scope : Nat → Bool)
+    (hc : CompiledOK q comps cl) (lq : List Step) (hlq : lq ∈ comps) (scope : Nat → Bool)
     (atomOk : Nat → Nat → Bool) (bondOk : Nat → Nat → Nat → Nat → Bool) (hb : BondSymm bondOk) :
     ∀ m ∈ recMapping (envOf t lq cl scope atomOk bondOk),
       ∃ f, m = asDict (lq.map (·.front)) f ∧ EmbedsComp q t (lq.map (·.front)) scope atomOk bondOk f := by
@@ -56,7 +76,7 @@ theorem rec_sound (q t : Graph) (comps : List (List Step)) (cl : Closures) (hq :
 
 /-- **Completeness** (`rec_complete`): the dict of every valid embedding of the component is returned. -/
 theorem rec_complete (q t : Graph) (comps : List (List Step)) (cl : Closures) (hq : q.WF = true) (ht : t.WF = true)
-    (hc : checkCompiled q comps cl = true) (lq : List Step) (hlq : lq ∈ comps) (scope : Nat → Bool)
+    (hc : CompiledOK q comps cl) (lq : List Step) (hlq : lq ∈ comps) (scope : Nat → Bool)
     (atomOk : Nat → Nat → Bool) (bondOk : Nat → Nat → Nat → Nat → Bool) (hb : BondSymm bondOk)
     (f : Nat → Nat) (emb : EmbedsComp q t (lq.map (·.front)) scope atomOk bondOk f) :
     asDict (lq.map (·.front)) f ∈ recMapping (envOf t lq cl scope atomOk bondOk) := by
@@ -93,7 +113,7 @@ theorem rec_nodup (t : Graph) (ht : t.WF = true) (lq : List Step) (cl : Closures
 /-- **Exactness for one component**: membership in the result ⇔ being (the dict of) a valid embedding; and the result is
     duplicate free. This is the statement "the mappings returned are exactly the injective maps …". -/
 theorem component_exact (q t : Graph) (comps : List (List Step)) (cl : Closures) (hq : q.WF = true) (ht : t.WF = true)
-    (hc : checkCompiled q comps cl = true) (lq : List Step) (hlq : lq ∈ comps) (scope : Nat → Bool)
+    (hc : CompiledOK q comps cl) (lq : List Step) (hlq : lq ∈ comps) (scope : Nat → Bool)
     (atomOk : Nat → Nat → Bool) (bondOk : Nat → Nat → Nat → Nat → Bool) (hb : BondSymm bondOk) :
     (∀ m, m ∈ recMapping (envOf t lq cl scope atomOk bondOk) ↔
       ∃ f, m = asDict (lq.map (·.front)) f ∧ EmbedsComp q t (lq.map (·.front)) scope atomOk bondOk f) ∧
@@ -103,10 +123,20 @@ theorem component_exact (q t : Graph) (comps : List (List Step)) (cl : Closures)
   rintro ⟨f, rfl, emb⟩
   exact rec_complete q t comps cl hq ht hc lq hlq scope atomOk bondOk hb f emb
 
+/-- **Exactness for every component of the model's own linearisation** (no checker in the statement): for a well-formed
+    pattern and target, each component `lq` of `compileQuery q` is matched exactly. -/
+theorem model_component_exact (q t : Graph) (hq : q.WF = true) (ht : t.WF = true) (comps : List (List Step))
+    (cl : Closures) (hcq : compileQuery q = some (comps, cl)) (lq : List Step) (hlq : lq ∈ comps) (scope : Nat → Bool)
+    (atomOk : Nat → Nat → Bool) (bondOk : Nat → Nat → Nat → Nat → Bool) (hb : BondSymm bondOk) :
+    (∀ m, m ∈ recMapping (envOf t lq cl scope atomOk bondOk) ↔
+      ∃ f, m = asDict (lq.map (·.front)) f ∧ EmbedsComp q t (lq.map (·.front)) scope atomOk bondOk f) ∧
+    (recMapping (envOf t lq cl scope atomOk bondOk)).Nodup :=
+  component_exact q t comps cl hq ht (compile_covers q hq comps cl hcq) lq hlq scope atomOk bondOk hb
+
 /-- **Scope**: with a scope the result is exactly the embeddings all of whose images lie inside it — stated as: the
     result for scope `s` is the result without scope filtered by "every image is in `s`" (as sets of dicts). -/
 theorem scope_exact (q t : Graph) (comps : List (List Step)) (cl : Closures) (hq : q.WF = true) (ht : t.WF = true)
-    (hc : checkCompiled q comps cl = true) (lq : List Step) (hlq : lq ∈ comps) (scope : Nat → Bool)
+    (hc : CompiledOK q comps cl) (lq : List Step) (hlq : lq ∈ comps) (scope : Nat → Bool)
     (atomOk : Nat → Nat → Bool) (bondOk : Nat → Nat → Nat → Nat → Bool) (hb : BondSymm bondOk) (m : Dict) :
     m ∈ recMapping (envOf t lq cl scope atomOk bondOk) ↔
       (m ∈ recMapping (envOf t lq cl (fun _ => true) atomOk bondOk) ∧
@@ -127,7 +157,7 @@ theorem scope_exact (q t : Graph) (comps : List (List Step)) (cl : Closures) (hq
       rw [List.map_snd_zip (by simp), List.map_snd_zip (by simp)] at this
       exact fun u hu => List.map_inj_left.1 this u hu
     have hQ := wf_ok q hq
-    have hC := checkCompiled_sound q comps cl hc
+    have hC := hc
     refine ⟨?_, ?_, ?_, ?_, ?_, hsc⟩
     · intro u hu v hv h; rw [← hfg u hu, ← hfg v hv] at h; exact emb.injective u hu v hv h
     · intro u hu; rw [← hfg u hu]; exact emb.atom_in_target u hu
@@ -207,7 +237,7 @@ theorem operators_agree (lenSelf lenOther : Nat) (r r' : List Dict) :
 
 /-- `is_substructure` of a one-component pattern ⇔ an embedding exists (combining `component_exact` with the operator). -/
 theorem is_substructure_iff_embedding (q t : Graph) (comps : List (List Step)) (cl : Closures) (hq : q.WF = true)
-    (ht : t.WF = true) (hc : checkCompiled q comps cl = true) (lq : List Step) (hlq : lq ∈ comps) (scope : Nat → Bool)
+    (ht : t.WF = true) (hc : CompiledOK q comps cl) (lq : List Step) (hlq : lq ∈ comps) (scope : Nat → Bool)
     (atomOk : Nat → Nat → Bool) (bondOk : Nat → Nat → Nat → Nat → Bool) (hb : BondSymm bondOk) :
     isSubstructure (recMapping (envOf t lq cl scope atomOk bondOk)) = true ↔
       ∃ f, EmbedsComp q t (lq.map (·.front)) scope atomOk bondOk f := by
@@ -252,13 +282,8 @@ example : (autoFilter [[(1, 20), (2, 21)], [(1, 21), (2, 20)], [(1, 21), (2, 22)
     with the real `_get_mapping`. -/
 def StackRefinesRec : Prop :=
   ∀ (q t : Graph) (comps : List (List Step)) (cl : Closures), q.WF = true → t.WF = true →
-    checkCompiled q comps cl = true → ∀ lq ∈ comps, ∀ (scope : Nat → Bool) (atomOk : Nat → Nat → Bool)
+    CompiledOK q comps cl → ∀ lq ∈ comps, ∀ (scope : Nat → Bool) (atomOk : Nat → Nat → Bool)
       (bondOk : Nat → Nat → Nat → Nat → Bool),
       getMapping (envOf t lq cl scope atomOk bondOk) = some (recMapping (envOf t lq cl scope atomOk bondOk))
-
-/-- `_compile_query` always produces an accepted linearisation. NOT proved here; the driver re-checks it on every case
-    (model output and the real `_compile_query` output). -/
-def CompileChecks : Prop :=
-  ∀ (q : Graph), q.WF = true → ∃ comps cl, compileQuery q = some (comps, cl) ∧ checkCompiled q comps cl = true
 
 end ChythonModel.Props.C07
